@@ -140,6 +140,35 @@ def canon_cmp(v):
     return ("cmp:Lt:%s:%s" % (repr(b), repr(a)), not neg)
 
 
+def discr_test(v, truth):
+    """v: a boolean term of the form [!] (discriminant(x) ==/!= K): -> ('variant', None, name, x) when that determines one variant, else None"""
+    neg = False
+    while v and v[0] == "unop" and v[1] == "Not":
+        v, neg = v[2], not neg
+    if not (v and v[0] == "binop" and v[1] in ("Eq", "Ne")):
+        return None
+    a, b = v[2], v[3]
+    if b and b[0] in ("discr", "cast") and a and a[0] == "const":
+        a, b = b, a
+    while a and a[0] == "cast":
+        a = a[2]
+    if not (a and a[0] == "discr" and len(a) > 2 and a[2]):
+        return None
+    k = const_of(b)
+    if not isinstance(k, int) or isinstance(k, bool):
+        return None
+    names = {val: n for val, n in a[2]}
+    if k not in names:
+        return None
+    holds = (truth != neg) == (v[1] == "Eq")
+    if holds:
+        return ("variant", None, names[k], a[1])
+    others = [n for val, n in a[2] if val != k]
+    if len(others) == 1:
+        return ("variant", None, others[0], a[1])
+    return None
+
+
 class Explorer:
     def __init__(self, f, stop=None, unwind=False, max_paths=600, max_visits=2, max_steps=4000, on_call=None, decide=None, stop_blocks=None, on_drop=None, deep_events=False):
         self.f = f
@@ -232,11 +261,19 @@ class Explorer:
             if canon is not None and val in (0, 1):
                 return ("assume2", k, val, canon[0], val ^ (1 if canon[1] else 0))
             return ("assume", k, val)
+        def cond(val):
+            # `x.is_some()` / `matches!(x, V)` compiled to a comparison of the discriminant with a constant: record it as what it is,
+            # a test of the variant of x
+            if is_bool:
+                vc = discr_test(v, bool(val))
+                if vc is not None:
+                    return vc
+            return ("scalar", v, bool(val) if is_bool else val, vals)
         for val, tg in t["targets"]:
-            out.append((tg, asm(val), ("scalar", v, bool(val) if is_bool else val, vals)))
+            out.append((tg, asm(val), cond(val)))
         if is_bool and vals in ([0], [1]):
             other = 1 - vals[0]
-            out.append((t["otherwise"], asm(other), ("scalar", v, bool(other), vals)))
+            out.append((t["otherwise"], asm(other), cond(other)))
         else:
             out.append((t["otherwise"], ("assume", k, "other:%s" % ",".join(str(x) for x in vals)), ("scalar", v, None, vals)))
         return out
